@@ -3,10 +3,27 @@ package rhp
 // Verification-only export shim (overlay file; never part of the repository):
 // gives the external harness package access to the unexported RPC handlers.
 
-import "net"
+import (
+	"errors"
+	"net"
+
+	"go.uber.org/zap"
+)
 
 // VerifHandle runs one RPC handler on stream.
-func (s *Server) VerifHandle(rpc string, stream net.Conn) error {
+func (s *Server) VerifHandle(rpc string, stream net.Conn) (err error) {
+	// handleHostStream recovers handler panics and drops the stream; mirror that
+	defer func() {
+		if r := recover(); r != nil {
+			err = errVerifPanic
+		}
+	}()
+	return s.verifHandle(rpc, stream)
+}
+
+var errVerifPanic = errors.New("panic in RPC handler (recovered by handleHostStream)")
+
+func (s *Server) verifHandle(rpc string, stream net.Conn) error {
 	switch rpc {
 	case "free":
 		return s.handleRPCFreeSectors(stream)
@@ -30,6 +47,8 @@ func (s *Server) VerifHandle(rpc string, stream net.Conn) error {
 		return s.handleRPCWriteSector(stream)
 	case "verify":
 		return s.handleRPCVerifySector(stream)
+	case "read":
+		return s.handleRPCReadSector(stream, zap.NewNop())
 	case "balance":
 		return s.handleRPCAccountBalance(stream)
 	case "form":
